@@ -93,8 +93,8 @@ package limit
 //@   requires [C12] gOutN + 1 == gInN && item == gIn[gOutN]
 //@   requires [C04] PACE(dsc)
 //@   requires [C04] gBatch < dsc.opts.Limit.Quantity
-//@   modifies gOutN, gBatch
-//@   ensures [* C04 C12] gOutN == old(gOutN) + 1 && gBatch == old(gBatch) + 1
+//@   modifies gOutN, gBatch, gClock
+//@   ensures [* C04 C12] gOutN == old(gOutN) + 1 && gBatch == old(gBatch) + 1 && gClock >= old(gClock)
 
 //@ func (*Discipline).pass
 //@   requires [*] WF(dsc)
@@ -102,13 +102,16 @@ package limit
 //@   requires [*] gBatch == 0
 //@   requires [C12] gInN == gOutN && !gClosed
 //@   requires [C04] PACE(dsc)
-//@   modifies gIn, gInN, gOutN, gClosed, gBatch
+//@   modifies gIn, gInN, gOutN, gClosed, gBatch, gClock
 //@   ensures [* C04 C12] gBatch <= dsc.opts.Limit.Quantity && gOutN == old(gOutN) + gBatch
 //@   ensures [* C04 C12] !result ==> gBatch == dsc.opts.Limit.Quantity
+//@   ensures [* C04 C12] gClock >= old(gClock)
+//@   ensures [C04] PACE(dsc)
 //@   ensures [C12] gInN == gOutN && (result <==> gClosed)
 //@   loop 0
 //@     invariant [*] WF(dsc)
-//@     invariant [* C04 C12] gBatch == $i && gOutN == old(gOutN) + gBatch
+//@     invariant [* C04 C12] gBatch == $i && gOutN == old(gOutN) + gBatch && gClock >= old(gClock)
+//@     invariant [C04] PACE(dsc)
 //@     invariant [C12] gInN == gOutN && !gClosed
 
 //@ func (*Discipline).transfer
